@@ -142,7 +142,9 @@ def r09_1(ctx, m):
             bad2 = (p, f"{len(writes)} writes for one record")
             break
     ctx.check(bad2 is None, "R09.1", f.where(m.pass2), "write pass: every record is sought by its own offset, re-read with one readline() and written exactly once", key_of(f, f"pass2:{bad2[1] if bad2 else ''}"), paths=len(m.p2_paths), **({"path": bad2[0].show(), "why": bad2[1]} if bad2 else {}))
-    skip = [st for st in walk_stmts(m.pass2.body) if isinstance(st, (ast.Continue, ast.Break))]
+    from ..core import own_loop_jumps
+
+    skip = own_loop_jumps(m.pass2.body)
     ctx.check(not skip, "R09.1", f.where(m.pass2), "no record is skipped in the write pass (no continue/break)", key_of(f, "pass2-skip"))
 
 
